@@ -28,22 +28,20 @@ def classify_exc(e):
 
 
 class Names:
-    """replacement of sympde.core.utils.random_string (which draws from SystemRandom).  Streams are written
-    "A" / "z" (every draw returns AAAA / zzzz) or "z+" (distinct draws zzza, zzzb, ...): upper-case names sort
-    before the user's symbols, lower-case z names after them."""
+    """replacement of sympde.core.utils.random_string (which draws from SystemRandom): DISTINCT draws whose first
+    letter is forced (Aaab, Aaac, ... / zaab, zaac, ...): upper-case names sort before the user's symbols, lower-case
+    z names after them.  (Identical draws would make two arguments of a product group share their l_/r_ functions.)"""
 
     def __init__(self, tag):
-        self.letter, self.uniq, self.k = tag[0], tag.endswith("+"), 0
+        self.letter, self.k = tag[0], 0
 
     def __call__(self, n):
-        if not self.uniq:
-            return self.letter * n
         self.k += 1
         k, s = self.k, ""
-        while k:
+        for _ in range(max(n - 1, 1)):
             s = chr(ord("a") + k % 26) + s
             k //= 26
-        return (self.letter * n)[: max(n - len(s), 1)] + s
+        return (self.letter + s)[:max(n, 2)]
 
 
 def run_linearize(l, fields, trials, tag):
@@ -125,7 +123,7 @@ def run_case(case):
     import sympde.expr.expr as EX
     old_rs = EX.random_string
     l = None
-    for tag in ("z", "A", "z+"):    # the constructor's own linearity check also draws names (C08)
+    for tag in ("z", "A", "m"):    # the constructor's own linearity check also draws names (C08)
         EX.random_string = Names(tag)
         try:
             with contextlib.redirect_stdout(buf):
@@ -140,7 +138,7 @@ def run_case(case):
     out.pop("err", None)
     out["stage"] = "linearize"
     out["expr"] = str(expr)[:500]
-    out["runs"] = [run_linearize(l, list(fields), list(trials), tag) for tag in ("z", "A", "z+")]
+    out["runs"] = [run_linearize(l, list(fields), list(trials), tag) for tag in ("z", "A", "m")]
     # Newton
     nw = {}
     buf = io.StringIO()
